@@ -327,7 +327,7 @@ def r3(ctx):
     ctx.ob(it.qual, "all-three-regions-yield", okr, it.loc(), "match, insertion and deletion regions each have a yield" if okr else "regions with a yield: %s" % sorted(seen_regions))
     # v_position is the current variant's position wherever it is used
     defs = [v for s, v in util.assignments_to(it.node, "v_position") if isinstance(v, ast.AST)]
-    ok = len(defs) >= 4 and all(u(v) == "variants[j].position" for v in defs)
+    ok = (None if not defs else (len(defs) >= 4 and all(u(v) == "variants[j].position" for v in defs)))
     ctx.ob(it.qual, "v_position-tracks-variant-j", ok, it.loc(), "v_position is always variants[j].position" if ok else "v_position is assigned something else")
     pre = [n for n in walk_function(it.node) if isinstance(n, ast.While) and atoms(n.test, True) == {("j < n", True), ("variants[j].position < ref_pos", True)}]
     ctx.ob(it.qual, "variants-left-of-read-skipped", len(pre) == 1, it.loc(), "variants before the read's start are skipped, never yielded" if pre else "the initial skip loop changed")
@@ -402,7 +402,7 @@ def r4(ctx):
     # edit-distance branch windows
     qd = [(s, _deref(fi.node, v)) for s, v in util.assignments_to(fi.node, "query") if isinstance(v, ast.AST)]
     qd = [(s, v) for s, v in qd if isinstance(v, ast.Subscript) and isinstance(v.slice, ast.Slice)]
-    ok = len(qd) == 1 and u(qd[0][1].value) == "bam_read.query_sequence" and _slice_lin(qd[0][1]) == ({"query_pos": 1, "left_query_bases": -1}, {"query_pos": 1, "right_query_bases": 1})
+    ok = (None if not qd else (len(qd) == 1 and u(qd[0][1].value) == "bam_read.query_sequence" and _slice_lin(qd[0][1]) == ({"query_pos": 1, "left_query_bases": -1}, {"query_pos": 1, "right_query_bases": 1})))
     ctx.ob(fi.qual, "query-window", ok, fi.loc(qd[0][0]) if qd else fi.loc(), "query window = query_sequence[query_pos - left_query_bases : query_pos + right_query_bases]" if ok else "query window is cut differently")
     posd = util.single_def(fi.node, "pos")
     okp = posd is not None and u(posd) == "variant.position"
@@ -422,7 +422,7 @@ def r4(ctx):
         ok = first is not None and isinstance(first, ast.Subscript) and isinstance(first.slice, ast.Slice) and u(first.value) == "reference" and _slice_lin(first) == ({"pos": 1, "left_ref_bases": -1}, {"pos": 1, "right_ref_bases": 1})
         ctx.ob(fi.qual, "reference-allele-window", ok, fi.loc(), "padded REF = reference[pos - left_ref_bases : pos + right_ref_bases] (same flanks as the pads) is allele 0" if ok else "the padded reference allele (first entry of padded_alleles) is %s, not the reference cut with the bounds of the pads" % (u(first)[:80] if first is not None else "not a single expression"))
         rest = shape[1:]
-        ok = len(rest) == 1 and rest[0][0] == "each" and rest[0][3] == "variant.get_alt_allele_list()" and u(util.resolve_locals(fi.node, rest[0][1], keep=("left_pad", "right_pad"))) == "left_pad + %s + right_pad" % rest[0][2]
+        ok = (None if not rest else (len(rest) == 1 and rest[0][0] == "each" and rest[0][3] == "variant.get_alt_allele_list()" and u(util.resolve_locals(fi.node, rest[0][1], keep=("left_pad", "right_pad"))) == "left_pad + %s + right_pad" % rest[0][2]))
         ctx.ob(fi.qual, "every-alt-gets-the-same-pads", ok, fi.loc(), "every ALT is left_pad + alt + right_pad, in ALT order (index = allele number)" if ok else "ALT alleles are not padded as left_pad + alt + right_pad in ALT order: %s" % [(k[0], u(k[1])[:50]) for k in rest])
     # kmerald branch: ref_temp / alt_temp / query_temp
     rt = _deref(fi.node, util.single_def(fi.node, "ref_temp"))
@@ -437,7 +437,7 @@ def r4(ctx):
             parts.insert(0, e.right)
             e = e.left
         parts.insert(0, e)
-        oka = len(parts) == 3 and isinstance(parts[0], ast.Subscript) and _slice_lin(parts[0]) == ({"variant.position": 1, "left_ref_bases": -1}, {"variant.position": 1}) and u(parts[1]) == "variant.alternative_allele" and isinstance(parts[2], ast.Subscript) and _slice_lin(parts[2]) == ({"variant.position": 1, "len(variant.reference_allele)": 1}, {"variant.position": 1, "right_ref_bases": 1})
+        oka = (None if not parts else (len(parts) == 3 and isinstance(parts[0], ast.Subscript) and _slice_lin(parts[0]) == ({"variant.position": 1, "left_ref_bases": -1}, {"variant.position": 1}) and u(parts[1]) == "variant.alternative_allele" and isinstance(parts[2], ast.Subscript) and _slice_lin(parts[2]) == ({"variant.position": 1, "len(variant.reference_allele)": 1}, {"variant.position": 1, "right_ref_bases": 1})))
     ctx.ob(fi.qual, "kmerald-windows-share-flanks", ok and oka, fi.loc(), "kmerald: REF, ALT and query windows use the same flank lengths" if ok and oka else "kmerald windows are cut with inconsistent flanks")
     # split conservation
     sl = ctx.func(RR + ".split_cigar_left")
@@ -452,7 +452,7 @@ def r4(ctx):
     # caller passes the yielded tuple through unchanged
     da = ctx.func(RR + ".detect_alleles_by_alignment")
     loops = [n for n in walk_function(da.node) if isinstance(n, ast.For) and u(n.iter).startswith("_iterate_cigar(")]
-    ok = len(loops) == 1 and [u(t) for t in loops[0].target.elts] == ["index", "i", "consumed", "query_pos"]
+    ok = (None if not loops else (len(loops) == 1 and [u(t) for t in loops[0].target.elts] == ["index", "i", "consumed", "query_pos"]))
     rc = [c for c in ctx.prog.calls_in(da.node) if u(c.func) == "ReadSetReader.realign"]
     params = util.params_of(fi.node)
     if ok and rc:
@@ -484,10 +484,10 @@ def r5(ctx):
             ctx.ob(fi.qual, "index-return:%s" % first, False, fi.loc(r), "unexpected allele-index return %s" % u(r.value))
     ctx.require(n_edit >= 1, "return of distances[0][0] not found")
     none_rets = [r for r in rets if r not in idx_rets]
-    ok = len(none_rets) >= 3 and all(u(r.value) == "(None, None)" for r in none_rets)
+    ok = (None if not none_rets else (len(none_rets) >= 3 and all(u(r.value) == "(None, None)" for r in none_rets)))
     ctx.ob(fi.qual, "otherwise-no-allele", ok, fi.loc(), "every other return is (None, None)" if ok else "a non-index return is not (None, None)")
     srt = [c for c in ctx.prog.calls_in(fi.node) if u(c.func) == "distances.sort"]
-    ok = len(srt) >= 1 and all(not any(k.arg == "reverse" for k in c.keywords) and any(k.arg == "key" and isinstance(k.value, ast.Lambda) and u(k.value.body).endswith("[1]") for k in c.keywords) for c in srt)
+    ok = (None if not srt else (len(srt) >= 1 and all(not any(k.arg == "reverse" for k in c.keywords) and any(k.arg == "key" and isinstance(k.value, ast.Lambda) and u(k.value.body).endswith("[1]") for k in c.keywords) for c in srt)))
     ctx.ob(fi.qual, "distances-sorted-ascending", ok, fi.loc(), "candidates are sorted by ascending distance: index 0 is the best" if ok else "distances are not sorted ascending by distance")
     # totality: distances[0] needs a non-empty candidate list
     dd = [(s, v) for s, v in util.assignments_to(fi.node, "distances") if isinstance(v, ast.ListComp)]
@@ -520,7 +520,7 @@ def r5(ctx):
     da = ctx.func(RR + ".detect_alleles_by_alignment")
     dcfg = ctx.cfg(da)
     ys = [n for n in walk_function(da.node) if isinstance(n, ast.Expr) and isinstance(n.value, ast.Yield)]
-    ok = len(ys) == 1 and ("allele in range(num_alts + 1)", True) in guard_atoms(dcfg, dcfg.node_of(ys[0])) and u(util.single_def(da.node, "num_alts")) == "len(variants[index].get_alt_allele_list())"
+    ok = (None if not ys else (len(ys) == 1 and ("allele in range(num_alts + 1)", True) in guard_atoms(dcfg, dcfg.node_of(ys[0])) and u(util.single_def(da.node, "num_alts")) == "len(variants[index].get_alt_allele_list())"))
     ctx.ob(da.qual, "only-valid-allele-indices-yielded", ok, da.loc(ys[0]) if ys else da.loc(), "an allele is yielded only if it is one of 0..num_alts (None is dropped)" if ok else "the yield is not guarded by `allele in range(num_alts + 1)`")
 
 
